@@ -84,8 +84,9 @@ struct X {
     }
     else if (!w.attempt_in_progress()) vk_assume(0);
     int before = w.npk;
-    // the first attempt to come back may be refused (CONNACK with a failure code, which always has Session Present 0) or fail at the TCP level
-    if (vk_choose(2)) { bool fa = w.failed_attempt(2); vk_assert(fa, "the client tries to reconnect"); on_client_packets(before); before = w.npk; vk_reach("reconnect-refused-first"); }
+    // with a QoS 2 exchange open, the first attempt to come back may be refused (CONNACK with a failure code, which always has Session Present 0)
+    bool open_qos2 = false; for (int i = 0; i < nm; i++) if (m[i].qos == 2 && !m[i].got_comp && !m[i].abandoned) open_qos2 = true;
+    if (open_qos2 && vk_choose(2)) { bool fa = w.failed_attempt(2); vk_assert(fa, "the client tries to reconnect"); on_client_packets(before); before = w.npk; vk_reach("reconnect-refused-first"); }
     bool ok = w.establish(); vk_assert(ok, "the client reconnects after a connection loss");
     bool sp = vk_choose(2);
     w.send_connack(sp, 0, nullptr, 0); w.feed_all(); vk::drain(); on_client_packets(before);
